@@ -518,7 +518,7 @@ class BOLFI(BayesianOptimization):
             raise ValueError("Unknown posterior sampler.")
 
         posterior = self.extract_posterior(threshold)
-        warmup = warmup or n_samples // 2
+        warmup = n_samples // 2 if warmup is None else warmup
 
         # Unless given, select the evidence points with smallest discrepancy
         if initials is not None:
